@@ -199,6 +199,9 @@ func Main18(tier, replay string) {
 	n := 0
 	for _, c := range base {
 		ci := info[c.ID]
+		if ci.Route.Sibling {
+			continue // C18 uses the plain perturbation space
+		}
 		for vi, v := range vs {
 			if tier != "thorough" && vi >= 2 && len(ci.Perts) > 0 && n%2 == 1 {
 				// quick: the heavier variants on every other perturbed case
